@@ -10,6 +10,7 @@ pub mod out;
 pub mod fmt;
 pub mod run;
 pub mod strict;
+pub mod ts;
 
 pub fn dispatch(case: &Value, dir: &Path) -> Value {
     match case.get("op").and_then(|x| x.as_str()) {
@@ -24,6 +25,9 @@ pub fn dispatch(case: &Value, dir: &Path) -> Value {
         Some("wfail") => out::op_wfail(case, dir),
         Some("fmt") => fmt::op_fmt(case, dir),
         Some("strict") => strict::op_strict(case, dir),
+        Some("ts") => ts::op_ts(case, dir),
+        Some("tsfmt") => ts::op_tsfmt(case, dir),
+        Some("tzdata") => ts::op_tzdata(case, dir),
         Some(op) => json!({"r": "BADCASE", "msg": format!("unknown op {op}")}),
         None => json!({"r": "BADCASE", "msg": "no op"}),
     }
